@@ -195,7 +195,10 @@ def gen_cfg(rng):
     ta = rng.choice([0, 1, 10, 65535])
     qos = rng.choice([2, 2, 2, 3])
     mode = rng.choice(["overlap", "onlyonce", "onlyonce", "bogus"])
-    ops = [f"new mode={mode} maxq={maxq} mi={mi} rm={rm} ta={ta} mp={mp} qos={qos}"]
+    # feature switches the CONNACK advertises and SUBSCRIBE / PUBLISH must honour (shared / wildcard subscriptions, subscription
+    # identifiers, retained messages available or not)
+    flags = {k: rng.choice([1, 1, 0]) for k in ("shared", "wild", "subid", "ret")}
+    ops = [f"new mode={mode} maxq={maxq} mi={mi} rm={rm} ta={ta} mp={mp} qos={qos} " + " ".join(f"{k}={v}" for k, v in flags.items())]
     ops.append("conn p cp v=5 cs=1")
     crm = rng.choice([None, 1, 3, 65535]); cta = rng.choice([None, 0, 2]); cmp_ = rng.choice([None, 60, 4000])
     line = f"conn s cs v={rng.choice([4, 5, 5])} cs=1"
@@ -205,9 +208,13 @@ def gen_cfg(rng):
         if cmp_ is not None: line += f" mp={cmp_}"
     ops.append(line)
     ops.append("sub s 1 t/#|1")
+    ops.append(f"sub s 2 $share/g/u/a|1 u/+|1" + (" id=7" if rng.random() < 0.6 else ""))
+    ops.append("sub s 3 v/a|1 id=9")
     for i in range(rng.randint(1, 4)):
         ops.append(f"pub p t/a q={rng.choice([0, 1])} pid={i + 1} tag=c{i}")
     ops += ["ack s puback all", "ping s", "ping p"]
+    ops.append(f"pub p u/a q=0 pid=0 r={rng.choice([0, 1])} tag=cr")
+    ops += ["ping s", "ping p"]
     return ops
 
 def pred_cfg(ops, out):
